@@ -247,6 +247,12 @@ class EncodeState:
             self.emplace_bytes(b'')
             return
 
+        if base_data_type in (DataType.A_INT32, DataType.A_UINT32) and bit_length > 64:
+            # e.g. a length specified via a length key
+            odxraise(f"Integers cannot be encoded using more than 64 bits (is: {bit_length})",
+                     EncodeError)
+            return
+
         format_char = base_data_type.bitstruct_format_letter
         padding = (8 - ((bit_length + self.cursor_bit_position) % 8)) % 8
         odxassert((0 <= padding and padding < 8 and
